@@ -145,7 +145,9 @@ impl Inner {
         unsafe {
             let parsed: String = crate::from_slice_unchecked(raw).ok()?;
             let parsed = Arc::into_raw(Arc::new(parsed)) as *mut ();
-            match self.unescaped.compare_exchange_weak(
+            // a strong compare-exchange: it only fails when another thread has stored its
+            // decoding, so `e` is never null
+            match self.unescaped.compare_exchange(
                 ptr,
                 parsed,
                 Ordering::AcqRel,
@@ -153,7 +155,8 @@ impl Inner {
             ) {
                 Ok(_) => Some(&*(parsed as *const String)),
                 Err(e) => {
-                    Arc::decrement_strong_count(parsed);
+                    // free our own decoding: it is an `Arc<String>`
+                    Arc::decrement_strong_count(parsed as *const String);
                     Some(&*(e as *const String))
                 }
             }
